@@ -59,7 +59,7 @@ static rc::Gen<OpC> gen_op() {
         {6, S_NEW}, {1, S_NEW_INVALID}, {1, S_EMPTY}, {2, S_WHOLE}, {1, S_COPY}, {2, S_MOVE}, {1, S_ASSIGN}, {1, S_MOVE_ASSIGN}, {1, S_SELF_ASSIGN}, {2, S_UNION}, {2, S_INTERSECT}, {3, S_ACCESS}, {2, S_CONVERT},
         {10, P_NEW}, {1, P_NEW_BADCOUNT}, {1, P_EMPTY}, {3, P_COPY}, {3, P_MOVE}, {2, P_ASSIGN}, {2, P_MOVE_ASSIGN}, {1, P_SELF_ASSIGN}, {1, P_SELF_MOVE_ASSIGN}, {3, P_CROSS_ASSIGN},
         {2, P_SCALE}, {1, P_DIV}, {1, P_NEG}, {3, P_ISCALE}, {2, P_IDIV}, {4, P_ADD}, {3, P_SUB}, {4, P_MUL}, {5, P_IADD}, {4, P_ISUB}, {3, P_LINCOMB}, {1, P_LINCOMB_BAD},
-        {4, P_APPLY}, {6, P_APPLY_SPLINEOP}, {2, P_LINFORM}, {3, P_BILFORM}, {4, P_EVAL}, {1, P_PRED}, {1, P_FRONTBACK}, {3, P_MOVE_REUSE}, {6, P_EVAL_MUTATE}, {3, P_INTERPOLATE}, {4, P_REGRID}});
+        {4, P_APPLY}, {6, P_APPLY_SPLINEOP}, {2, P_LINFORM}, {3, P_BILFORM}, {4, P_EVAL}, {1, P_PRED}, {1, P_FRONTBACK}, {3, P_MOVE_REUSE}, {6, P_EVAL_MUTATE}, {3, P_INTERPOLATE}, {4, P_REGRID}, {2, P_SWAP}, {1, S_SELF_MOVE}});
     o.a = pick(0, 63); o.b = pick(0, 63); o.c = pick(0, 255); o.d = pick(0, 63);
     return o;
   });
